@@ -109,9 +109,9 @@ prop(
     technique="bounded-progress monitor: whenever all stated preconditions are observed right before a Liquidate call, that call must succeed",
     design_ref="DESIGN.md §4 C07",
     rule="evaluations = Liquidate calls (limit 0, any caller) issued when the monitor observed ALL antecedents: recomputed liquidation ratio < maintenance, vAMM open and registered, whole (and partial) closing trade quotable with a non-zero half-penalty, "
-         "spot strictly inside the per-block band, liquidation fee ratio != 0, insurance fund >= 2*(notional+margin+close quote). Such a call failing is a violation; any uncertain antecedent skips the step. "
+         "spot inside the per-block band (by a margin of 2 raw units, or exactly on a limit when reference price, limits and spot are exact quotients: an exact-edge macro produces such states), liquidation fee ratio != 0, insurance fund >= 2*(notional+margin+close quote). Such a call failing is a violation; any uncertain antecedent skips the step. "
          "distinct = (oracle kind, deciding ratio, ratio class negative/below-fee/above-fee, partial setting, vault smaller than remaining margin, paused, direction).",
-    essential=["antecedents-met", "antecedents-met-while-paused:full-path", "antecedents-met-while-paused:partial-path"],
+    essential=["antecedents-met", "antecedents-met-while-paused:full-path", "antecedents-met-while-paused:partial-path", "antecedents-met-with-spot-exactly-on-the-band-limit"],
     text="Unbounded 'can always be liquidated' is restated as immediate progress on every observed under-margined state; held on what was observed, with listed known findings.",
     note="liveness is out of reach for runtime monitoring; the oracle price used is the harness's own last submission",
 )
@@ -156,9 +156,9 @@ prop(
     technique="trace monitor with its own per-block reference-price record; band-edge workloads sized by dry-run bisection",
     design_ref="DESIGN.md §4 C15",
     rule="evaluations = OpenPosition / ClosePosition calls on vAMMs with a non-zero fluctuation limit. Reference = monitor's record of spot at the end of the last earlier block in which reserves changed. R1 successful open leaving a position: spot_post within [lower-1, upper+1]; R2 not accepted when spot_pre already outside; "
-         "R3a whole close (partial fraction < 100%) must leave the price inside; R3b partial close only when the whole close (evaluated from OutputAmount in the true closing direction) would leave the band, and by the configured fraction. "
+         "R3a whole close (partial fraction < 100%) must leave the price inside; R3b partial close only when the whole close (evaluated from OutputAmount in the true closing direction) would leave the band, and by the configured fraction; the tolerance at the band limits is 0 instead of 1-2 raw units whenever the reference price, both limits and the price after the whole close are exact quotients (an exact-edge macro lands whole closes exactly on a limit). "
          "distinct = (operation, side, intra-block drift direction, distance-to-edge bucket, same-block trade count, reply path).",
-    essential=["opens-under-band", "opens-at-edge", "opens-rejected-by-vamm", "whole-closes-under-band", "partial-closes-under-band"],
+    essential=["opens-under-band", "opens-at-edge", "opens-rejected-by-vamm", "whole-closes-under-band", "partial-closes-under-band", "closes-whose-whole-close-lands-exactly-on-the-band-edge"],
     text="Trades were placed within +-2 raw units of the band edge by bisection, with the price pre-drifted inside the block.",
     note="+-1 raw unit tolerance on band bounds (integer price)",
 )
@@ -202,8 +202,8 @@ prop(
     technique="post-condition monitor on caps after position-increasing trades + configuration-bounds invariant after every step under random UpdateConfig sequences",
     design_ref="DESIGN.md §4 C20",
     rule="evaluations = successful opens under a non-zero cap, cap rejections and configuration updates. R1 after a position-increasing open by a non-whitelisted trader: State.open_interest <= cap and |size| <= holding cap; R2 after every step every stored ratio <= 1, maintenance <= initial, TWAP interval in [60, 604800]; "
-         "R3 no registered vAMM with decimals != the engine's; R4 a pure increase (fresh position or same-side add) of notional N raises the engine's open interest by at least N (under-counting would let exposure pass the cap unnoticed). distinct = (increasing, whitelisted, relation to each cap, reply path) and (config op, outcome).",
-    essential=["opens-under-caps", "cap-rejections", "config-updates", "config-updates-rejected", "R3-mismatched-decimals-offered", "R4-pure-increases"],
+         "R3 no registered vAMM with decimals != the engine's; R4 a pure increase (fresh position or same-side add) of notional N raises the engine's open interest by at least N (under-counting would let exposure pass the cap unnoticed); R5 a transaction lowers the engine's open interest by at most what its exposure-reducing trade took out of the market (exchanged quote, or twice the closed share of the open notional minus the exchanged quote, whichever is larger; a re-opening leg adds its quote), and a transaction without a trade does not lower it. distinct = (increasing, whitelisted, relation to each cap, reply path) and (config op, outcome).",
+    essential=["opens-under-caps", "cap-rejections", "config-updates", "config-updates-rejected", "R3-mismatched-decimals-offered", "R4-pure-increases", "R5-exposure-reducing-trades", "R5-transactions-without-trade"],
     text="Caps raised/lowered between trades, whitelist flips, boundary config values (0, 1, 1+1 raw, crossing maintenance/initial).",
     note="open interest is the engine-wide figure the cap is compared with",
 )
